@@ -585,6 +585,31 @@ def rule_hook_list_ownership(ctx: Ctx) -> None:
     ctx.floor("C02-6", 3)
 
 
+def rule_transparent_delegation(ctx: Ctx) -> None:
+    """C02-7: inside the engine package a generator that forwards another generator's steps delegates with `yield from` (or drives it with
+    `.send(value)`).  Re-yielding the result of `next(g)` / `g.__next__()` forwards the delays but swallows what the engine sends back in:
+    `value = yield future` inside the wrapped process then always receives None.  Also: every entity class of the engine package that
+    returns a user callable's result returns it unwrapped."""
+    prog = ctx.prog
+    n_gen = 0
+    for fn in prog.all_functions("happysimulator/core/"):
+        if not fn.is_generator:
+            continue
+        n_gen += 1
+        drives = [c for c in calls_in(fn.node) if (isinstance(c.func, ast.Name) and c.func.id == "next" and c.args) or (isinstance(c.func, ast.Attribute) and c.func.attr == "__next__")]
+        # counters (`count()` objects) are not processes
+        drives = [c for c in drives if "counter" not in unparse(c).lower()]
+        yields = [y for y in walk_scope(fn.node, include_root=False) if isinstance(y, ast.Yield)]
+        ok = not (drives and yields)
+        ctx.ob("C02-7", "G4", fn, drives[0] if drives else None, ok, f"{fn.qual}: a generator of the engine package that passes on another generator's steps uses `yield from` / `.send()` — "
+               "never `next(g)` followed by `yield`, which drops the value sent in on resume" + ("" if ok else f" (found `{unparse(drives[0])}` with {len(yields)} plain yield(s))"))
+    cb = prog.func("happysimulator/core/callback_entity.py", "CallbackEntity.handle_event")
+    rets = [s_ for s_ in walk_stmts(cb.node.body) if isinstance(s_, ast.Return)]
+    okc = len(rets) == 1 and isinstance(rets[0].value, ast.Call) and path_of(rets[0].value.func) == "self._fn" and not cb.is_generator
+    ctx.ob("C02-7", "G4", cb, rets[0] if rets else None, okc, "CallbackEntity hands the callback's result (a generator included) to the engine as it is: the engine itself drives the process and sends values in")
+    ctx.stats["core_generators"] = n_gen
+
+
 def run(ctx: Ctx) -> None:
     ctx.guarded(rule_continuation_provenance)
     ctx.guarded(rule_return_discipline)
@@ -592,9 +617,11 @@ def run(ctx: Ctx) -> None:
     ctx.guarded(rule_future_latch)
     ctx.guarded(rule_combinators)
     ctx.guarded(rule_hook_list_ownership)
+    ctx.guarded(rule_transparent_delegation)
 
 
 MUTANTS = [
+    ("callback-process-redriven-with-next", "happysimulator/core/callback_entity.py", "        return self._fn(event)\n", "        result = self._fn(event)\n        if hasattr(result, 'send'):\n            return self._drive(result)\n        return result\n\n    def _drive(self, process):\n        try:\n            while True:\n                yield next(process)\n        except StopIteration as done:\n            return done.value\n", "C02-7"),
     ("forward-shares-hook-list", "happysimulator/core/entity.py", "            target=target,\n            context=event.context,\n        )", "            target=target,\n            context=event.context,\n            on_complete=event.on_complete,\n        )", "C02-6"),
     ("continuation-resumes-immediately", EV, "resume_time = self.time + delay", "resume_time = self.time", "C02-1"),
     ("continuation-loses-hooks", EV, "                on_complete=self.on_complete,\n                process=self.process,", "                process=self.process,", "C02-1"),
